@@ -374,7 +374,15 @@ func main() {
 				fail(st, "C16/not-serving", "the process no longer answers eth_accounts after this body", res)
 			}
 			for _, p := range res.problems {
-				fail(st, "C16/reply-shape", p, res)
+				key := "C16/reply-shape"
+				switch {
+				case strings.HasPrefix(p, "no reply"):
+					key = "C16/no-reply"
+					p = "no reply (connection dropped or timed out)"
+				case strings.HasPrefix(p, "reply body is"):
+					key = "C16/reply-not-json"
+				}
+				fail(st, key, p, res)
 			}
 			table := txnTable(res.tc.body, tree, keys, st.Hit)
 			term := fmt.Sprintf("(C16Case %s %s %s %s)", cv.Compress(res.tc.body).Coq(), verdict, table, res.obs)
